@@ -61,6 +61,32 @@ var payloadPieces = map[string][]string{
 
 var payloadKinds = []string{"ascii", "multibyte", "date", "number", "url"}
 
+// expressions that fail at evaluation (the rest of the template is still output) and one that is long when evaluated
+var failingExprs = []string{"@(1 / 0)", "@contact.xxx", "@(upper())", "@(format_date(\"x\"))", "@fields.nope.deeper"}
+
+// withExpressions turns a literal text into a template: a failing expression at the start, in the middle or at the
+// end, and optionally a repeat() whose value is long (so that the EVALUATED text exceeds even the default limit)
+func withExpressions(r *hx.Rand, lit string, long int) string {
+	rs := []rune(lit)
+	at := 0
+	switch r.Intn(3) {
+	case 1:
+		at = len(rs) / 2
+	case 2:
+		at = len(rs)
+	}
+	out := string(rs[:at]) + " " + hx.Pick(r, failingExprs) + " " + string(rs[at:])
+	if long > 0 {
+		rep := fmt.Sprintf(`@(repeat("%s", %d))`, hx.Pick(r, []string{"x", "é", "日", "ab "}), long)
+		if r.Bool() {
+			out = rep + out
+		} else {
+			out += rep
+		}
+	}
+	return out
+}
+
 // genValue builds a text of exactly n characters (runes) from pieces of the given kinds, the first kind first
 func genValue(r *hx.Rand, n int, kinds []string) string {
 	if n <= 0 {
@@ -93,6 +119,12 @@ func valueFeatures(s string) string {
 	}
 	if len(s) != utf8.RuneCountInString(s) {
 		fs = append(fs, "multibyte")
+	}
+	for _, x := range failingExprs {
+		if strings.Contains(s, x) {
+			fs = append(fs, "failing-expression")
+			break
+		}
 	}
 	if len(fs) == 0 {
 		return "plain"
@@ -142,6 +174,25 @@ func genPayloadCase(r *hx.Rand) *PayloadCase {
 		}
 	}
 	nact := r.Range(1, 4)
+	defer func() {
+		// 1 case in 3: the values are TEMPLATES with an expression that fails (and sometimes a long repeat())
+		if !r.Chance(1, 3) {
+			return
+		}
+		for i := range c.Actions {
+			a := &c.Actions[i]
+			long := 0
+			if r.Chance(1, 2) {
+				long = hx.Pick(r, []int{50, 700, 10050})
+			}
+			a.Text = withExpressions(r, a.Text, long)
+			for k := range a.QuickReps {
+				if r.Bool() {
+					a.QuickReps[k] = withExpressions(r, a.QuickReps[k], hx.Pick(r, []int{0, 70}))
+				}
+			}
+		}
+	}()
 	for i := 0; i < nact; i++ {
 		switch r.Intn(5) {
 		case 0:
@@ -184,6 +235,15 @@ func payloadCorpus() []*PayloadCase {
 			{Kind: "set_contact_name", Text: "Ñandú 😀 " + long},
 			{Kind: "set_run_result", Name: "r0", Text: "2024-05-06T07:08:09Z " + long},
 			{Kind: "send_msg", Text: long, QuickReps: []string{long, "日本語のテキスト " + long}, Attachments: []string{"image/jpeg:https://example.com/" + strings.Repeat("パ", 700) + ".jpg"}}}})
+	}
+	// a message template with a failing expression whose evaluated text is longer than MaxTemplateChars
+	for _, o := range []PayloadOpts{def, {MaxTemplateChars: 20, MaxFieldChars: 640, MaxResultChars: 640}} {
+		out = append(out, &PayloadCase{Kind: "payload", Opts: o, Actions: []PayloadAction{
+			{Kind: "send_msg", Text: `@(1 / 0) @(repeat("ab", 5010)) tail`, QuickReps: []string{`@contact.xxx ` + long}},
+			{Kind: "send_msg", Text: long + long + ` @contact.xxx @(repeat("é", 10001))`},
+			{Kind: "set_run_result", Name: "r1", Text: `@(1 / 0) ` + long},
+			{Kind: "set_contact_name", Text: `@(upper()) ` + long},
+			{Kind: "set_contact_field", Field: "notes", Text: `@contact.xxx ` + long}}})
 	}
 	return out
 }
